@@ -54,6 +54,8 @@ def alphabet(rule, sel="all"):
         # through the reference it obtained once, before the first drain; j: next junk element (cycles)
         return ["R", "T", "q", "qa", "j", "wb", "X"]
     extra = ["%sd" % t for t in MULTI.get(sel, [])]  # yd / zd: write a different value to that loggee
+    if sel in ABSENT_SEL:                            # kn / kv: create-or-write field c with None / with a value
+        return ["R", "T", "wd", "wb", "kn", "kv", "X"]
     if sel in UNSTAMPED:                             # cx / cy: Share.change() (no stamp) on the unstamped loggee
         return ["R", "T", "wd", "c" + UNSTAMPED[sel]] + extra + ["X"]
     return ["R", "T", "ws", "wd", "wb"] + extra + ["X"]
@@ -68,8 +70,24 @@ def kind_of(e):
     return repr(e)
 
 
+# Field selections naming a field (c) the share does not have at START, in every position.
+ABSENT_SEL = {"abs-first": ["c", "a", "b"], "abs-mid": ["a", "c", "b"], "abs-last": ["a", "b", "c"]}
+
+
+class _Absent(object):
+    """Value of a selected field the share does not (yet) have: an empty column."""
+    def __str__(self):
+        return ""
+    __repr__ = __str__
+
+
+ABSENT = _Absent()
+
+
 def selected_fields(rule, sel):
     """Fields the log is expected to show (statement: 'field selection')."""
+    if sel in ABSENT_SEL:
+        return list(ABSENT_SEL[sel])
     if rule == "streak":
         return ["a"]                      # streak logs the first field only
     return ["a", "b"] if sel == "all" else ["a"]
@@ -77,6 +95,8 @@ def selected_fields(rule, sel):
 
 def given_fields(rule, sel):
     """fields= argument handed to addLoggee."""
+    if sel in ABSENT_SEL:
+        return list(ABSENT_SEL[sel])
     if rule == "deck":
         return ["a", "b"] if sel == "all" else ["a"]     # deck requires an explicit list
     return None if sel == "all" else ["a"]
@@ -100,6 +120,7 @@ class Ref:
         self.now = 0.0
         self.a = 0
         self.b = 0
+        self.c = ABSENT              # field the share lacks until kn / kv creates it
         self.queue = []
         self.npush = 0
         self.njunk = 0
@@ -115,7 +136,7 @@ class Ref:
         self.header = "text\t%s\t%s\n_time\t%s\n" % (RULENAME[rule], BASE, "\t".join(cols))
 
     def values(self):
-        d = dict(a=self.a, b=self.b)
+        d = dict(a=self.a, b=self.b, c=self.c)
         return [d[f] for f in self.fields] + [self.ov[t] for t in self.others]
 
     def record(self, vals):
@@ -195,6 +216,14 @@ class Ref:
             self.wstamp = self.now
         elif op in ("yd", "zd"):
             self.ov[op[0]] = (self.ov[op[0]] + 1) % 3
+            self.pending = True
+            self.wstamp = self.now
+        elif op == "kn":
+            self.c = None
+            self.pending = True
+            self.wstamp = self.now
+        elif op == "kv":
+            self.c = 1 if self.c in (ABSENT, None) else (self.c + 1) % 3
             self.pending = True
             self.wstamp = self.now
         elif op == "cx":                 # value changes, but Share.change() is not an update
@@ -301,6 +330,11 @@ class Impl:
         if op in ("cx", "cy"):
             o = w.shares["mc." + op[1]]
             return o.change(a=(o["a"] + 1) % 3)
+        if op == "kn":
+            return sh.update(c=None)
+        if op == "kv":
+            c = sh["c"] if "c" in sh else None
+            return sh.update(c=1 if c is None else (c + 1) % 3)
         if op == "j":
             return self.apply("j:" + JUNK[self.njunk % len(JUNK)])
         if op.startswith("j:"):
@@ -348,7 +382,7 @@ class Impl:
         sh = w.share
         a = sh["a"]
         return (w.logger.status, w.logger.desire, age(w.log.stamp), age(sh.stamp), age(w.logger.stamp),
-                tuple(kind_of(e) for e in a) if isinstance(a, list) else a, sh["b"],
+                tuple(kind_of(e) for e in a) if isinstance(a, list) else a, sh["b"], sh["c"] if "c" in sh else "absent",
                 None if self.alias is None else (self.current() is self.alias, tuple(kind_of(e) for e in self.alias)),
                 tuple(kind_of(e) for e in sh.deck), lasts,
                 tuple((n, o["a"], age(o.stamp)) for n, o in sorted(w.shares.items()) if o is not sh),
@@ -402,7 +436,8 @@ def diverge(node, hist, part, stage):
     replay = dict(rule=rule, fields=sel, history=list(hist), tick=TICK,
                   how="LogWorld(fs, rule, fields, share a/b) ; START/R/STOP = logger.runner.send(...) ; T = store.changeStamp(+tick) ; "
                       "ws/wd/wb = share.update(a=same / a=(a+1)%3 / b=(b+1)%3) ; yd/zd = the same on the further loggee shares mc.y / mc.z "
-                      "(fields=two/three: log.addLoggee(tag='y', loggee='mc.y'), ...) ; fields=two-x0 / two-y0: share mc.x / mc.y is initialised "
+                      "(fields=two/three: log.addLoggee(tag='y', loggee='mc.y'), ...) ; fields=abs-first/mid/last: fields=['c','a','b'] etc. with no field c in the share at START, kn = "
+                      "share.update(c=None), kv = share.update(c=1 or (c+1)%3) ; fields=two-x0 / two-y0: share mc.x / mc.y is initialised "
                       "with Share.change() so its stamp is None, cx / cy = share.change(a=(a+1)%3) on it ; q = deck push(odict(a=n,b=10n)) / list append(n) ; "
                       "qa = the same through the reference to share.deck / share['a'] taken once right after construction ; "
                       "j:<v> = deck push(v) / list append(v) for v in None, 0, '', {}, [] ; j = the next of these in that order ; "
@@ -567,6 +602,8 @@ def run():
               "two-x0": depth if core.TIER == "quick" else 9, "two-y0": depth if core.TIER == "quick" else 9}
     items += [(r, s, mdepth[s]) for r in ("change", "update") for s in (("two", "three") if core.TIER != "quick" else ("two",))]
     items += [(r, s, mdepth[s]) for r in ("update", "change") for s in ("two-x0", "two-y0")]
+    # rule change with a selected field the share lacks at START (first / middle / last position)
+    items += [("change", s, depth if core.TIER == "quick" else 9) for s in sorted(ABSENT_SEL)]
     items += [("grid", r, s, maxlen) for r in QUEUE for s in ("all", "one")]
     parts = core.pmap(work_any, items)
     # keep, per group, the shortest (then lexicographically first) example over all shards
